@@ -47,18 +47,21 @@ func c18Case(mode int, stmt string, w x86ref.Want, f map[string]string) *core.Ca
 
 func c18Scenarios(tier string) []*core.Scenario {
 	modes := []int{16, 32}
-	imms := []int64{-32769, -32768, -130, -129, -128, -127, -126, -1, 0, 1, 126, 127, 128, 129, 130, 255, 256, 0x7fff, 0x8000}
+	imms := []int64{-32769, -32768, -130, -129, -128, -127, -126, -1, 0, 1, 126, 127, 128, 129, 130, 0xf0, 255, 256, 0x7fff, 0x8000}
 	ops := []string{"ADD", "OR", "AND", "SUB", "XOR", "CMP"}
 	var scs []*core.Scenario
 	scs = append(scs, &core.Scenario{Name: "alu_imm", Bound: -1,
-		Rule:   "six immediate-group operations x every 16/32-bit register and WORD/DWORD memory destination (6 shapes) x signed immediates on both sides of -128/127 and +-32768 x BITS; non-trivial = decoded to the source instruction",
+		Rule:   "six immediate-group operations x every 8/16/32-bit register and BYTE/WORD/DWORD memory destination (6 shapes) x signed immediates on both sides of -128/127 and +-32768 x BITS; non-trivial = decoded to the source instruction",
 		Bounds: map[string]any{"ops": ops, "immediates": imms},
 		Build: func(c *core.Chooser) *core.Case {
 			mode := modes[c.Pick("mode", 2)]
 			mn := ops[c.Pick("mn", len(ops))]
-			w := []int{16, 32}[c.Pick("w", 2)]
+			w := []int{16, 32, 8}[c.Pick("w", 3)]
 			k := c.Pick("dst", 8+6)
 			iv := imms[c.Pick("imm", len(imms))]
+			if w == 8 && (iv < -128 || iv > 255) {
+				return nil
+			}
 			if k < 8 {
 				a := regsOf(w)[k]
 				return c18Case(mode, fmt.Sprintf("%s %s,%d", mn, a, iv), x86ref.Want{Op: mn, OpSize: w, Ops: []x86ref.WantOp{wreg(a), wimm(iv, w)}},
